@@ -55,6 +55,79 @@ def prepend_scope(scope, name):
 MUTATIONS = ("set_defaults", "set_bound", "mut_rename", "mut_scope", "mut_drop", "mut_add", "mut_replace")
 
 
+MUTATIONS_X = ("mut_rename_x", "mut_frename")     # update_renames with update_from / overwrite, in place (pipeline / one function)
+
+
+def fn_pairs(f):
+    """[(current name, original name)] of the parameters and outputs of one PipeFunc."""
+    return (list(zip(f.parameters, f.original_parameters)) +
+            list(zip(at_least_tuple(f.output_name), at_least_tuple(f._output_name))))
+
+
+def predict_names(f, m, from_original, overwrite, whole=False):
+    """What `update_renames(m, update_from, overwrite)` is documented to do with the names of `f` (used by the generator to
+    steer clear of captures and to classify; the judgement uses the names the implementation reports and the model)."""
+    pairs = fn_pairs(f)
+    keys = {(o if from_original else c) for c, o in pairs}
+    mm = {k: v for k, v in m.items() if k in keys} if not whole else m
+    return {c: mm.get(o if from_original else c, o if overwrite else c) for c, o in pairs}
+
+
+def names_of(p):
+    return [(list(f.parameters), list(at_least_tuple(f.output_name))) for f in p.functions]
+
+
+def name_relation(before, after):
+    """The renaming the implementation performed, read off position by position (the order of the parameters and of the
+    outputs of a function is fixed by its signature).  -> (pairs (old, new), some function has two equal names, two producers of one output)"""
+    rel, dup = set(), False
+    for (bp, bo), (ap, ao) in zip(before, after):
+        rel |= set(zip(bp, ap)) | set(zip(bo, ao))
+        dup = dup or len(set(ap + ao)) < len(ap + ao)
+    outs = [o for _, ao in after for o in ao]
+    return rel, dup, len(set(outs)) < len(outs)
+
+
+def rename_state(p):
+    """Per function: ((current, original) pairs, names carrying a bound value, names carrying a default) before an update_renames call."""
+    return [(fn_pairs(f), set(f.bound), set(f.defaults)) for f in p.functions]
+
+
+def rename_cats(state, after, overwrite):
+    """Which of the situations the rename histories are after does one performed `update_renames` call exercise."""
+    cats = set()
+    for (pairs, bound, dflt), (ap, ao) in zip(state, after):
+        old = [c for c, _ in pairs]
+        new = list(ap) + list(ao)
+        if len(old) != len(new):
+            continue
+        for i, ((c, o), n) in enumerate(zip(pairs, new)):
+            if c in bound and n != c:
+                cats.add("cat:renames:bound-parameter-renamed")
+                if c != o:
+                    cats.add("cat:renames:bound-parameter-renamed-again")
+                if overwrite and c != o and n == o:
+                    cats.add("cat:renames:bound-parameter-sent-home-by-overwrite")
+            if c in dflt and n != c and c != o:
+                cats.add("cat:renames:defaulted-parameter-renamed-again")
+            if n != c and n in old and old.index(n) != i:
+                cats.add("cat:renames:freed-name-handed-over")
+                if old[i] == new[old.index(n)]:
+                    cats.add("cat:renames:swap-in-one-call")
+                if c in bound or n in bound:
+                    cats.add("cat:renames:freed-name-handed-over:bound-involved")
+    return sorted(cats)
+
+
+def uniform(rel, used):
+    """One old name -> one new name and back, over the names in use."""
+    fwd, bwd = {}, {}
+    for o, n in rel:
+        fwd.setdefault(o, set()).add(n)
+        bwd.setdefault(n, set()).add(o)
+    return all(len(v) == 1 for v in fwd.values()), all(len(v) == 1 for v in bwd.values())
+
+
 def sel_arg(x):
     """JSON form (None | "*" | list) of an `inputs=` / `outputs=` argument -> what update_scope is called with."""
     return x if x is None or x == "*" else set(x)
@@ -310,7 +383,7 @@ class Runner:
         """Returns True when the implementation performed the op."""
         kind = op["op"]
         self.counts.append(f"op:{kind}")
-        if kind in MUTATIONS:
+        if kind in MUTATIONS or kind in MUTATIONS_X:
             return self.apply_mutation(op)
         src = self.env[op["src"]]
         rho = lambda n: n  # noqa: E731
@@ -335,11 +408,47 @@ class Runner:
                 except Exception:  # noqa: BLE001
                     pass
                 p = quiet(src.p.join, other.p) if op.get("via") != "or" else quiet(lambda: src.p | other.p)
+                if any(r in src.tags and src.tags[r] != t for r, t in other.tags.items()):
+                    # a root argument of both that stands for different inputs of the generated pipelines (renamed apart and back):
+                    # the joined pipeline gives it ONE value, so it is not required to compute what both sources compute
+                    loose = True
+                    self.counts.append("join:shared-root-with-different-tags")
             elif kind == "rename":
                 m = dict(op["map"])
                 p = quiet(src.p.copy)
                 rho = lambda n: m.get(n, n)  # noqa: E731
                 quiet(p.update_renames, m)
+            elif kind == "rename_x":
+                p = quiet(src.p.copy)
+                before_names, rstate = names_of(p), rename_state(p)
+                quiet(p.update_renames, dict(op["map"]), update_from="original" if op["from_original"] else "current", overwrite=bool(op["overwrite"]))
+                rel, dup, dup_out = name_relation(before_names, names_of(p))
+                if dup or dup_out:
+                    # two names of one function / two producers became one: a capture, outside the property
+                    self.counts.append("capture:rename_x")
+                    self.check_unchanged(op["src"], "after a capturing rename_x")
+                    return False
+                functional, inj = uniform(rel, None)
+                if not (functional and inj):
+                    # not ONE renaming of the pipeline (an overwrite returns names to originals that differ between the functions, or
+                    # two roots meet): the wiring may change; the result is compared with the model only
+                    loose = True
+                    self.counts.append("rename_x:" + ("split" if not functional else "") + ("merge" if not inj else ""))
+                try:
+                    self.roots(p)
+                    for o in p.all_output_names:
+                        p.root_args(o)
+                except Exception as e:  # noqa: BLE001   e.g. a cycle closed by two names that met
+                    self.counts.append(f"rename_x:unreadable-result:{exc_enum(e)}")
+                    self.check_unchanged(op["src"], "after rename_x")
+                    return False
+                fwd = {}
+                for o_, n_ in sorted(rel):
+                    fwd.setdefault(o_, n_)
+                rho = lambda n: fwd.get(n, n)  # noqa: E731
+                self.counts.append(f"rename_x:{'original' if op['from_original'] else 'current'}:{'overwrite' if op['overwrite'] else 'add'}"
+                                   f":{'uniform' if not loose else 'loose'}")
+                cats = rename_cats(rstate, names_of(p), op["overwrite"])
             elif kind == "scope":
                 p = quiet(src.p.copy)
                 names = set(self.roots(src.p)) | set(src.p.all_output_names)
@@ -387,9 +496,18 @@ class Runner:
                 self.check_unchanged(op["src"], f"after a capturing {kind}")
                 return False
         self.counts += cats
-        tags = {rho(r): t for r, t in src.tags.items()}
-        labels = {rho(o): l for o, l in src.labels.items()}
+        # tags / labels of names the source no longer uses (the root of a dropped function, a dropped output) are stale: a later
+        # renaming may hand such a name to another parameter
+        used_src = used_names(src.p)
+        tags = {rho(r): t for r, t in src.tags.items() if r in used_src}
+        labels = {rho(o): l for o, l in src.labels.items() if o in used_src}
         inputs, kinds, internal = dict(src.inputs), dict(src.kinds), [[rho(o), s] for o, s in src.internal]
+        if kind == "rename_x":
+            for o_, n_ in sorted(rel):          # a name that split: every new name carries the old one's tag / label
+                if o_ in src.tags:
+                    tags.setdefault(n_, src.tags[o_])
+                if o_ in src.labels:
+                    labels.setdefault(n_, src.labels[o_])
         if other is not None:
             tags.update(other.tags); labels.update(other.labels); inputs.update(other.inputs); kinds.update(other.kinds)
             internal += other.internal
@@ -440,7 +558,7 @@ class Runner:
         self.check_unchanged(op["src"], f"after {kind}")
         if other is not None:
             self.check_unchanged(op["other"], f"after {kind}")
-        self.last = ("scope" if kind == "scope_sel" else kind, op["dst"], [op["src"]] + ([op["other"]] if other is not None else []))
+        self.last = ("scope" if kind == "scope_sel" else "rename" if kind == "rename_x" else kind, op["dst"], [op["src"]] + ([op["other"]] if other is not None else []))
         return True
 
     def inconsistent(self, e, ops):
@@ -486,6 +604,10 @@ class Runner:
         rho = lambda n: n  # noqa: E731
         cats = []
         try:
+            used_before = used_names(ent.p)
+        except Exception:  # noqa: BLE001
+            used_before = None
+        try:
             if kind == "set_defaults":
                 m = {k: terms.dec(v) for k, v in op["map"]}
                 quiet(ent.p.update_defaults, m)
@@ -508,6 +630,32 @@ class Runner:
                 cats = self.scope_categories(ent.p, op)
                 quiet(ent.p.update_scope, op["scope"], sel_arg(op["inputs"]), sel_arg(op["outputs"]),
                       set(op["exclude"]) if op["exclude"] is not None else None)
+            elif kind in ("mut_rename_x", "mut_frename"):
+                before_names, rstate = names_of(ent.p), rename_state(ent.p)
+                target_obj = ent.p if kind == "mut_rename_x" else ent.p[op["out"]]
+                quiet(target_obj.update_renames, dict(op["map"]), update_from="original" if op["from_original"] else "current",
+                      overwrite=bool(op["overwrite"]))
+                rel, dup, dup_out = name_relation(before_names, names_of(ent.p))
+                if dup or dup_out:
+                    self.counts.append(f"capture:{kind}")
+                    self.halted = True          # the object was changed in place into something outside the property
+                    return False
+                functional, inj = uniform(rel, None)
+                is_uniform = functional and inj
+                try:
+                    self.roots(ent.p)
+                    for o in ent.p.all_output_names:
+                        ent.p.root_args(o)
+                except Exception as e:  # noqa: BLE001
+                    self.counts.append(f"{kind}:unreadable-result:{exc_enum(e)}")
+                    self.halted = True
+                    return False
+                fwd = {}
+                for o_, n_ in sorted(rel):
+                    fwd.setdefault(o_, n_)
+                rho = lambda n: fwd.get(n, n)  # noqa: E731
+                cats = [f"{kind}:{'original' if op['from_original'] else 'current'}:{'overwrite' if op['overwrite'] else 'add'}"
+                        f":{'uniform' if is_uniform else 'loose'}"] + rename_cats(rstate, names_of(ent.p), op["overwrite"])
             elif kind == "mut_drop":
                 quiet(lambda: ent.p.drop(output_name=op["out"]))
                 cats = ["cat:drop"]
@@ -524,6 +672,13 @@ class Runner:
             self.history.append(self.model_op(op))
             self.plan.append({"kind": "op", "op": op, "impl": {"err": exc_enum(e), "msg": str(e)[:200]}})
             if kind.startswith("mut_"):
+                # NOT part of the property text ("operations that return a new pipeline leave the original unchanged" speaks of the
+                # rewrites that succeed; nothing is said about an in-place call that raises): counted, not judged
+                try:
+                    same = summary(ent.p) == ent.summary
+                    self.counts.append(f"failed-in-place:{kind}:{'object-unchanged' if same else 'object-half-changed'}")
+                except Exception as e2:  # noqa: BLE001
+                    self.counts.append(f"failed-in-place:{kind}:object-unreadable:{exc_enum(e2)}")
                 self.halted = True
             return False
         self.counts += cats
@@ -532,8 +687,18 @@ class Runner:
         self.history.append(self.model_op(op))
         self.plan.append({"kind": "op", "op": op, "impl": {"ok": True, "summary": summary(ent.p)}})
         # --- name tracking of the mutated entry
+        if used_before is not None:             # stale entries (names the object no longer used before this call) are dropped
+            ent.tags = {r: t for r, t in ent.tags.items() if r in used_before}
+            ent.labels = {o: l for o, l in ent.labels.items() if o in used_before}
+        old_tags, old_labels = dict(ent.tags), dict(ent.labels)
         ent.tags = {rho(r): t for r, t in ent.tags.items()}
         ent.labels = {rho(o): l for o, l in ent.labels.items()}
+        if kind in MUTATIONS_X:
+            for o_, n_ in sorted(rel):          # a name that split: every new name carries the old one's tag / label
+                if o_ in old_tags:
+                    ent.tags.setdefault(n_, old_tags[o_])
+                if o_ in old_labels:
+                    ent.labels.setdefault(n_, old_labels[o_])
         ent.internal = [[rho(o), sh] for o, sh in ent.internal]
         if kind in ("mut_add", "mut_replace"):
             for o in op["func"]["outputs"]:
@@ -546,7 +711,7 @@ class Runner:
             ent.tags.setdefault(r, r)       # a parameter that became a root argument (dropped producer, fresh function)
         before = dict(ent.vals)
         self.observe(op["target"])
-        if kind in ("mut_rename", "mut_scope") and not ent.loose:
+        if (kind in ("mut_rename", "mut_scope") or (kind == "mut_rename_x" and is_uniform)) and not ent.loose:
             # the property, on the implementation alone: update_renames / update_scope IN PLACE keep every output's value up to the renaming
             for o, b in before.items():
                 if o != "*" and "value" in b and "*" not in ent.vals and ent.vals.get(rho(o)) != b:
@@ -686,6 +851,7 @@ CLASS_CHECKED = {
     "join": {"ValueError"}, "rename": {"ValueError"}, "scope_sel": {"ValueError"}, "mut_scope": {"ValueError"},
     "nest": {"ValueError", "RecursionError"}, "simplify": {"ValueError", "KeyError"}, "split": {"ValueError"},
     "mut_drop": {"KeyError"}, "mut_replace": {"KeyError"}, "mut_add": {"ValueError"},
+    "rename_x": {"ValueError", "RecursionError"}, "mut_rename_x": {"ValueError", "RecursionError"}, "mut_frename": {"ValueError"},
 }
 
 
